@@ -13,7 +13,7 @@ from scipy.sparse import csr_array
 from common import coq_eval, parse_ints, try_coq
 from solvers import solve_with_batch, COMBOS, Prepared, dense_design, expanded_basis, forces_from_fc, solver_cells
 
-UNITS = ["ReshapeGen", "SolverStruct", "BatchGen", "DesignGen", "ShapesSolvers", "SkelSolvers"]
+UNITS = ["ReshapeGen", "SolverStruct", "BatchGen", "DesignGen", "ShapesSolvers", "SkelSolvers", "ShapesApi", "SkelApi"]
 PROPS = ["props/C05.v"]
 ASSUMPTIONS = ["conditioning and rounding are outside the theorems: recovery is checked to 1e-6 relative on designs with condition number < 1e8",
                "sparse/dense products are exact real products in the model"]
@@ -193,6 +193,21 @@ def check(ctx):
             if bad_m:
                 ctx.fail("oracle", f"C05/oracle/recovery-large-amplitude/order{bad_m[0]}", f"{P.sc['name']} orders {orders}: displacements of 2.5 length units (Taylor model exact for any size): fc{bad_m[0]} not recovered (relative error {errs[bad_m[0]]:.2e})",
                          replay={**P.describe(), "orders": list(orders), "disps": d_big.tolist(), "rel_err": errs[bad_m[0]]}, has_input=True)
+
+            # another unit system: the same crystal with forces (hence force constants) 1e-12 times smaller; recovery is a relative statement
+            ctx.case({"cell": P.sc["name"], "orders": list(orders), "unit_scale": 1e-12, "n_snap": n}, nontrivial=True)
+            ctx.count("recovery-small-units")
+            try:
+                o = P.new(d, 1e-12 * f)
+                o.solve(orders=list(orders), is_compact_fc=False)
+                errs = {m: float(np.abs(o.force_constants[m] - 1e-12 * truth[m]).max() / max(np.abs(1e-12 * truth[m]).max(), 1e-300)) for m in orders}
+            except np.linalg.LinAlgError:
+                errs = {}
+                ctx.count("skipped-singular")
+            bad_m = [m for m, e in errs.items() if not e <= 1e-6]
+            if bad_m:
+                ctx.fail("oracle", f"C05/oracle/recovery-small-units/order{bad_m[0]}", f"{P.sc['name']} orders {orders}: forces and force constants scaled by 1e-12 (another unit system): fc{bad_m[0]} not recovered (relative error {errs[bad_m[0]]:.2e})",
+                         replay={**P.describe(), "orders": list(orders), "disps": d.tolist(), "scale": 1e-12, "rel_err": errs[bad_m[0]]}, has_input=True)
 
             # datasets with structure a shortcut might key on: displacements measured from their mean over the snapshots (every
             # component sums to zero, yet not symmetric under u -> -u), triples {u, -u/2, -u/2}, and true +/- pairs
